@@ -1,3 +1,3 @@
 SPECIFICATION Spec
-INVARIANTS C04_RawAcceptsOnlyCanonical C04_Equivalence C04_SemSignsCanonical RefConsistent TypeOK
+INVARIANTS C04_RawAcceptsOnlyCanonical C04_Equivalence C04_SemSignsCanonical C04_RetryOnlyRecorded RefConsistent TypeOK
 CHECK_DEADLOCK FALSE
